@@ -28,7 +28,7 @@ LEVEL = {
  'C19': ("proof", "HandleReceipt behaviours (empty field, accepted = exactly one enqueue of the unchanged payload and one response, queue full) are proved; the non-blocking select is modelled as a ready/not-ready choice; VerifyPayload returns nil exactly for well-formed payloads; the receipts worker forwards each dequeued payload exactly once iff it is well formed, unchanged; ForwardToNCS posts it once.", "§10 C19"),
  'C20': ("proof", "Only the retention and sharing clauses are claimed: dagaz.Module.Init creates the spatial partition once per session and never replaces an existing one, all participants share it through the session's module state, every quad sample is inserted into that partition and each query answers once from it. Index completeness is not proved: a bounded stand-in (labelled bounded in the evidence) replays about 450 000 insert sequences over 144 quads on the real grid and checks that every stored plane is registered in every cell its footprint overlaps; the geometric primitives are not applicable to this technique (see not_covered).", "§10 C20"),
 }
-NOTE = "Assumed contracts of dependencies (protobuf decode/encode, errors, sync, time, uuid, fmt), sequential handler-atomic histories (A-seq), trusted clauses and the assumptions listed in the evidence file; soundness of hvc, go/ssa and the SMT solvers."
+NOTE = "Assumed contracts of dependencies (protobuf decode/encode, errors, sync, time, uuid, fmt), sequential handler-atomic histories (A-seq), trusted clauses and the assumptions listed in the evidence file; contracts written on interface methods are checked against every implementation in the repository (evidence field interface_contracts lists each pair and the few that stay assumed: the dagaz RegularGrid methods and the join handler's preserved patterns); soundness of hvc, go/ssa and the SMT solvers."
 
 checks = []
 for pid in sorted(props):
